@@ -1199,6 +1199,11 @@ func unmarshalDecimal(info TypeInfo, data []byte, value interface{}) error {
 	case Unmarshaler:
 		return v.UnmarshalCQL(info, data)
 	case *inf.Dec:
+		if data == nil {
+			// null: the zero value, as for every other destination
+			*v = inf.Dec{}
+			return nil
+		}
 		if len(data) < 4 {
 			return unmarshalErrorf("inf.Dec needs at least 4 bytes, while value has only %d", len(data))
 		}
@@ -1919,6 +1924,8 @@ func unmarshalUUID(info TypeInfo, data []byte, value interface{}) error {
 			*v = nil
 		case *UUID:
 			*v = UUID{}
+		case *[16]byte:
+			*v = [16]byte{}
 		default:
 			return unmarshalErrorf("can not unmarshal X %s into %T", info, value)
 		}
@@ -1960,6 +1967,11 @@ func unmarshalTimeUUID(info TypeInfo, data []byte, value interface{}) error {
 	case Unmarshaler:
 		return v.UnmarshalCQL(info, data)
 	case *time.Time:
+		if data == nil {
+			// null: the zero value, as for every other destination
+			*v = time.Time{}
+			return nil
+		}
 		id, err := UUIDFromBytes(data)
 		if err != nil {
 			return err
@@ -2018,6 +2030,11 @@ func unmarshalInet(info TypeInfo, data []byte, value interface{}) error {
 	case Unmarshaler:
 		return v.UnmarshalCQL(info, data)
 	case *net.IP:
+		if data == nil {
+			// null: the zero value, as for every other destination
+			*v = nil
+			return nil
+		}
 		if x := len(data); !(x == 4 || x == 16) {
 			return unmarshalErrorf("cannot unmarshal %s into %T: invalid sized IP: got %d bytes not 4 or 16", info, value, x)
 		}
